@@ -18,7 +18,7 @@ def insitu_case(seed: int, tier: str = "quick") -> dict:
     rng = random.Random(f"c14i/{seed}")
     return {"scenario": "insitu", "seed": seed, "nodes": rng.choice([8, 12, 16] if tier == "quick" else [8, 16, 24, 40]),
             "minutes": rng.choice([3, 6] if tier == "quick" else [6, 12, 20]), "crash": rng.choice([0, 2, 4]),
-            "bucket": rng.choice([8, 8, 2, 3]),
+            "bucket": rng.choice([8, 8, 2, 3]), "rebind": rng.choice([0, 1, 3]),
             "knobs": {"lat_min": rng.choice([0.005, 0.05]), "lat_jit": rng.choice([0.0, 0.1, 0.4]), "loss": rng.choice([0.0, 0.05, 0.2]),
                       "timer_jitter": rng.choice([0.0, 0.001])}}
 
@@ -104,11 +104,32 @@ def execute_insitu(case: dict) -> dict:
             n.start_strategy(RandomWalk(n.ov, timeout=3.0), 0.5, 20)
             n.start_strategy(PingChurn(n.ov), 0.5, -1)
         crash_at = rng.randrange(20, 90)
+        rebind_at = rng.randrange(30, 100)
         for tick in range(int(case["minutes"] * 12)):
             await asyncio.sleep(5.0)
             if case["crash"] and tick * 5 >= crash_at and not world.faults.get("crash"):
                 for v in nodes[-case["crash"]:]:
                     v.crash()
+            if case.get("rebind") and tick * 5 >= rebind_at and not world.faults.get("rebind"):
+                # nodes come back under ANOTHER IP address with the same key (restart after renumbering, NAT re-binding) and talk to
+                # everybody who knew them
+                from ipv8.peer import Peer
+                for k, old in enumerate([v for v in nodes[1:1 + case["rebind"]] if v.name not in world.loop.dead]):
+                    old.crash()
+                    new = SimNode(world, old.name + "r", f"{201 + k}.{(k * 11) % 250}.{(k * 17) % 250}.{1 + (k * 29) % 250}", ip6=None)
+                    new.key = old.key
+                    with world.as_node(new.name):
+                        new.my_peer = Peer(old.key)
+                    await new.open("udp")
+                    new.ov = new.add(DHTDiscoveryCommunity)
+                    for other in nodes:
+                        if other is not old and other.name not in world.loop.dead:
+                            new.call(new.ov.walk_to, other.address)
+                    new.start_strategy(RandomWalk(new.ov, timeout=3.0), 0.5, 20)
+                    new.start_strategy(PingChurn(new.ov), 0.5, -1)
+                    nodes.append(new)
+                    world.fault("rebind")
+                    c.probe("insitu_node_back_under_another_ip")
             for n in nodes:
                 if n.name in world.loop.dead:
                     continue
@@ -119,7 +140,7 @@ def execute_insitu(case: dict) -> dict:
         evicted = sum(1 for n in nodes if n.name not in world.loop.dead
                       for rt in n.ov.routing_tables.values() for b in rt.trie.values() for _x in b.nodes)
         c.probe("insitu_nodes_in_tables", evicted)
-        c.nontrivial(f"insitu/{case['nodes']}/{case['bucket']}/{case['crash']}/{case['minutes']}/{case['knobs'].get('loss')}")
+        c.nontrivial(f"insitu/{case['nodes']}/{case['bucket']}/{case['crash']}/{case.get('rebind')}/{case['minutes']}/{case['knobs'].get('loss')}")
         for n in nodes:
             for h in n.strategies:
                 h.cancel()
@@ -131,5 +152,5 @@ def execute_insitu(case: dict) -> dict:
     finally:
         pass
     world.trace.event("c14i", None, (case["nodes"], len(c.violations)))
-    c.sample = {k: case[k] for k in ("scenario", "nodes", "minutes", "crash", "bucket", "knobs")}
+    c.sample = {k: case.get(k) for k in ("scenario", "nodes", "minutes", "crash", "rebind", "bucket", "knobs")}
     return c.result()
